@@ -19,8 +19,11 @@ J2000 = 2451545
 
 
 class CalModel(object):
-    def __init__(self, I, terms=None, months=None):
+    def __init__(self, I, terms=None, months=None, cursory_shift=None):
         self.I = I
+        # (year, idx) -> days by which the term's CALENDAR-MAKING day (day table) differs from the day of its precise instant
+        # (in the real data the two differ by a day for some terms before 1928)
+        self.cursory_shift = cursory_shift or {}
         self.terms = terms or {}      # (year, idx) -> (jdn, sec_of_day)
         self.months = months or []    # list of dicts: year, month (signed), first, count, index
         self.install()
@@ -64,7 +67,7 @@ class CalModel(object):
         names = self.I.static('SOLAR_TERM_NAMES', 'src/tyme/solar.rs')
         parent = self.I.call('LoopTyme::from_index', [list(names), idx])
         n, sec = self.terms[key]
-        return SV('SolarTerm', {'parent': parent, 'year': RInt(year, 'isize'), 'cursory_julian_day': float(n - J2000)})
+        return SV('SolarTerm', {'parent': parent, 'year': RInt(year, 'isize'), 'cursory_julian_day': float(n + self.cursory_shift.get(key, 0) - J2000)})
 
     def term_key(self, t):
         return (t.f['year'].v, t.f['parent'].f['index'].v)
@@ -135,11 +138,13 @@ class CalModel(object):
         o['SolarDay::get_lunar_day'] = get_lunar_day
 
         def from_ym(I_, r, a):
+            I_.call('LunarYear::from_year', [as_num(a[0])])      # the real constructor starts with this guard (years outside -1..9999 are refused)
             return self.lunar_month_sv(self.month_rec(as_num(a[0]), as_num(a[1])))
         o['LunarMonth::from_ym'] = from_ym
 
         def lm_new(I_, r, a):
             from pete import Res
+            I_.call('LunarYear::from_year', [as_num(a[0])])
             try:
                 return Res(self.lunar_month_sv(self.month_rec(as_num(a[0]), as_num(a[1]))), True)
             except Unanalysable:
